@@ -75,7 +75,7 @@ func (c20) Required(string) []string {
 		"unsupported_fixed_rejected", "unsupported_planted_rejected",
 		"registry_fixed", "registry_fixed_roundtrip_ToObject", "registry_fixed_roundtrip_ToObjectAlt",
 		"registry_planted_roundtrips_ToObject", "registry_planted_roundtrips_ToObjectAlt", "registry_typed_nil",
-		"deep_ToInterface", "deep_roundtrip_ToObject", "deep_roundtrip_ToObjectAlt", "go_deep_ToObject", "go_deep_ToObjectAlt",
+		"alias_probes_ToObject", "alias_probes_ToObjectAlt", "deep_ToInterface", "deep_roundtrip_ToObject", "deep_roundtrip_ToObjectAlt", "go_deep_ToObject", "go_deep_ToObjectAlt",
 		"nopanic_cases", "calls_ToObject", "calls_ToObjectAlt", "calls_ToInterface",
 	}
 }
@@ -602,6 +602,10 @@ func (x *c20run) caseGo(seed uint64, desc *string) {
 	x.w = c20wit{Kind: "go", Seed: seed, Input: in}
 	x.noteStat("go", &st, in)
 	x.goRoundTrip("go_roundtrip", g, in)
+	// write into a fresh conversion result: later cases would observe any container shared between conversions
+	if o, err, ok := x.toObj(seed%2 == 0, g); ok && err == nil {
+		c20poison(o)
+	}
 	if seed%977 == 0 {
 		x.c.Sample(map[string]string{"direction": "Go->uGO->Go", "value": c20short(in)})
 	}
@@ -961,6 +965,137 @@ func (x *c20run) caseDeep(depth, shape int) {
 	}
 }
 
+// ---------------------------------------------------------------- (7) independence of conversion results
+
+// c20poison writes into every container of a conversion result (what a script receiving the value may do).
+func c20poison(o ugo.Object) {
+	switch t := o.(type) {
+	case ugo.Map:
+		for _, v := range t {
+			c20poison(v)
+		}
+		t["poison"] = ugo.Int(666)
+	case *ugo.SyncMap:
+		if t.Value != nil {
+			t.Value["poison"] = ugo.Int(666)
+		}
+	case ugo.Array:
+		for i, v := range t {
+			c20poison(v)
+			t[i] = ugo.String("poison")
+		}
+	case ugo.Bytes:
+		for i := range t {
+			t[i] = 0x66
+		}
+	}
+}
+
+func c20poisonGo(g any) {
+	switch t := g.(type) {
+	case map[string]any:
+		for _, v := range t {
+			c20poisonGo(v)
+		}
+		t["poison"] = int64(666)
+	case []any:
+		for i, v := range t {
+			c20poisonGo(v)
+			t[i] = "poison"
+		}
+	case []byte:
+		for i := range t {
+			t[i] = 0x66
+		}
+	}
+}
+
+// c20emptyish builds (fresh on every call) the k-th Go value made of empty / nil containers.
+func c20emptyish(k int) (string, any) {
+	switch k {
+	case 0:
+		return "map[string]any{}", map[string]any{}
+	case 1:
+		return "map[string]any(nil)", map[string]any(nil)
+	case 2:
+		return "map[string]Object{}", map[string]ugo.Object{}
+	case 3:
+		return "map[string]Object(nil)", map[string]ugo.Object(nil)
+	case 4:
+		return "[]any{}", []any{}
+	case 5:
+		return "[]any(nil)", []any(nil)
+	case 6:
+		return "[]Object{}", []ugo.Object{}
+	case 7:
+		return "[]Object(nil)", []ugo.Object(nil)
+	case 8:
+		return "[]byte{}", []byte{}
+	case 9:
+		return "[]byte(nil)", []byte(nil)
+	case 10:
+		return "[]any{map{}, []any{}, []byte{}}", []any{map[string]any{}, []any{}, []byte{}}
+	case 11:
+		return "map{a: map{}, b: []any{}, c: map(nil), d: []any(nil)}", map[string]any{"a": map[string]any{}, "b": []any{}, "c": map[string]any(nil), "d": []any(nil)}
+	case 12:
+		return "[]any{map[string]Object(nil), []Object(nil), []byte(nil)}", []any{map[string]ugo.Object(nil), []ugo.Object(nil), []byte(nil)}
+	case 13:
+		return "map[string]any{x: 1}", map[string]any{"x": int64(1)}
+	case 14:
+		return "[]any{1}", []any{int64(1)}
+	}
+	return "", nil
+}
+
+// aliasProbe: a conversion result that was written to must not influence any later conversion.
+func (x *c20run) aliasProbe(k1, k2 int) {
+	l1, _ := c20emptyish(k1)
+	l2, _ := c20emptyish(k2)
+	in := "convert " + l1 + ", write into the result, then convert " + l2
+	x.w = c20wit{Kind: "alias", Seed: uint64(k1), TypIdx: k2, Input: in}
+	for _, alt := range []bool{false, true} {
+		fn := c20fname(alt)
+		_, g1 := c20emptyish(k1)
+		o1, err, ok := x.toObj(alt, g1)
+		if !ok || err != nil {
+			continue
+		}
+		c20poison(o1)
+		_, g2 := c20emptyish(k2)
+		_, want := c20emptyish(k2)
+		o2, err, ok := x.toObj(alt, g2)
+		if !ok || err != nil {
+			continue
+		}
+		if strings.Contains(canon.Value(o2), "poison") {
+			x.viol("C20|alias|"+fn+"|"+l2, fn+" returns an object shared with an earlier conversion result (a write to that result shows up)", fn, canon.Value(o2), in)
+			continue
+		}
+		back, ok := x.toIface(o2)
+		if !ok {
+			continue
+		}
+		if _, isObjMap := want.(map[string]ugo.Object); !isObjMap {
+			if _, isObjArr := want.([]ugo.Object); !isObjArr && k2 != 12 {
+				if d := c20goEq(want, back, alt, "$"); d != "" {
+					x.viol("C20|alias|"+fn+"|"+c20class(d), "Go value changed by a round trip made after an earlier result was written to: "+d, fn, c20goRender(back), in)
+					continue
+				}
+			}
+		}
+		// the Go side: results of ToInterface are independent as well
+		c20poisonGo(back)
+		o3, _, _ := x.toObj(alt, func() any { _, g := c20emptyish(k2); return g }())
+		if b3, ok := x.toIface(o3); ok {
+			if strings.Contains(c20goRender(b3), "poison") {
+				x.viol("C20|alias|ToInterface|"+l2, "ToInterface returns a Go value shared with an earlier result", "ToInterface", c20goRender(b3), in)
+				continue
+			}
+		}
+		x.c.Count("alias_probes_" + fn)
+	}
+}
+
 func (m c20) Run(c *core.Ctx) {
 	x := &c20run{c: c}
 	table := c20table()
@@ -991,6 +1126,8 @@ func (m c20) Run(c *core.Ctx) {
 		switch w.Kind {
 		case "deep":
 			x.caseDeep(int(w.Seed), w.TypIdx)
+		case "alias":
+			x.aliasProbe(int(w.Seed), w.TypIdx)
 		case "ugo":
 			x.caseUgo(w.Seed, nil)
 		case "go":
@@ -1086,6 +1223,20 @@ func (m c20) Run(c *core.Ctx) {
 			}
 			x.caseDeep(d, shape)
 			c.Nontrivial(fmt.Sprintf("deep-%d-%d", d, shape))
+		}
+	}
+
+	for k1 := 0; k1 < 15; k1++ {
+		for k2 := 0; k2 < 15; k2++ {
+			k1, k2 := k1, k2
+			if !mine() {
+				continue
+			}
+			if !c.Begin(func() string { return fmt.Sprintf("alias seed=%d k2=%d", k1, k2) }) {
+				continue
+			}
+			x.aliasProbe(k1, k2)
+			c.Nontrivial(fmt.Sprintf("alias-%d-%d", k1, k2))
 		}
 	}
 
